@@ -19,6 +19,9 @@ function and construct, never by position.
 
   @staticmethod def f(...)       hoisted to a module-level function; C.f(...) / self.f(...) / cls.f(...) redirected
 
+  x: T = e                       x = e
+  try: B except E: log; raise    B          (handlers that only log and re-raise the same exception, no finally)
+
 A pattern or position outside this fragment is left as it is; the engines then
 fail closed (exit 2) on the statement they do not model.
 """
@@ -253,6 +256,25 @@ class Desugar(ast.NodeTransformer):
     def visit_Expr(self, node):
         pre = self._hoist(node, "value")
         return pre + [node] if pre else node
+
+    def visit_AnnAssign(self, node):
+        # x: T = e  ->  x = e   (a bare declaration `x: T` has no effect at run time)
+        if node.value is None:
+            return ast.copy_location(ast.Pass(), node)
+        new = ast.copy_location(ast.Assign(targets=[node.target], value=node.value), node)
+        return self.visit_Assign(new)
+
+    def visit_Try(self, node):
+        self.generic_visit(node)
+        # try: BODY  except ...: <log>; raise   -- on every normal path this is BODY: the handlers only run when BODY
+        # raises and hand the exception on unchanged
+        def reraises(h):
+            return bool(h.body) and isinstance(h.body[-1], ast.Raise) and (
+                h.body[-1].exc is None or (isinstance(h.body[-1].exc, ast.Name) and h.body[-1].exc.id == h.name)) \
+                and not any(isinstance(x, (ast.Return, ast.Break, ast.Continue)) for b in h.body for x in ast.walk(b))
+        if node.handlers and all(reraises(h) for h in node.handlers) and not node.finalbody:
+            return list(node.body) + list(node.orelse)
+        return node
 
 
 def _hoist_staticmethods(tree: ast.Module) -> None:
